@@ -28,9 +28,10 @@ Pipeline mirrored here (file:lines of the pinned /repo):
 * `Itemset.get_options` (`requires_itext`)         question.py:308-340         → `requiresItext`
 * `Survey._generate_static_instances` (`itextId`)  survey.py:371-408           → `itemIds`
 
-Abstraction: of the innermost level of `_translations` (content type → value) only the *existence*
-of a path in a language is kept — the property (C07) observes `<text id>`s, not `<value form>`s.
-Key order of both dict levels is modelled exactly (it is what the implementation's XForm shows).
+Abstraction: of the values at the innermost level of `_translations` (content type → value) only
+"is the string `-`" is kept (it decides whether a media `<value form=…>` is written); the bookkeeping
+key `type` is dropped (`itext()` skips it).  Key order of all three dict levels is modelled exactly
+(it is what the implementation's XForm shows).
 -/
 namespace Pyxv.Itext
 open Pyxv
@@ -192,27 +193,41 @@ def requiresItext (l : CList) : Bool := l.options.any optRequiresItext
 /-- `f"{list_name}-{idx}"` -/
 def choiceId (name : Str) (idx : Nat) : Str := name ++ '-' :: (toString idx).toList
 
-/-- languages under which a `str | dict` value is filed (`default_language` for a plain string) -/
-def langsOf (dl : Str) : Txt → List Str
-  | .none => []
-  | .str _ => [dl]
-  | .dict d => d.map (·.1)
+/-- one leaf assignment `_translations[lang][path][form] = value` (`dash`: the value is "-") -/
+structure Ent where
+  lang : Str
+  path : Str
+  form : Str
+  dash : Bool
+deriving Repr, DecidableEq, Inhabited
 
-def mediaLangs (dl : Str) (m : Media) : List Str := m.flatMap fun kv => langsOf dl kv.2
+def isDash (s : Str) : Bool := s == ['-']
+
+/-- (language, value is "-") pairs under which a `str | dict` value is filed (`default_language`
+for a plain string) -/
+def langsOf (dl : Str) : Txt → List (Str × Bool)
+  | .none => []
+  | .str s => [(dl, isDash s)]
+  | .dict d => d.map fun kv => (kv.1, isDash kv.2)
+
+def entsOf (dl : Str) (p form : Str) (v : Txt) : List Ent :=
+  (langsOf dl v).map fun lb => ⟨lb.1, p, form, lb.2⟩
+
+def mediaEnts (dl : Str) (p : Str) (m : Media) : List Ent := m.flatMap fun kv => entsOf dl p kv.1 kv.2
 
 /-- `get_choice_content`, survey.py:801-823: the (language, itext id) pairs one option contributes -/
-def optEntries (dl : Str) (id : Str) (o : Opt) : List (Str × Str) :=
-  (if o.label.truthy then (langsOf dl o.label).map (·, id) else []) ++
+def optEntries (dl : Str) (id : Str) (o : Opt) : List Ent :=
+  (if o.label.truthy then entsOf dl id "long".toList o.label else []) ++
   (match o.media with
-   | some m => if mediaTruthy (some m) then (mediaLangs dl m).map (·, id) else []
+   | some m => if mediaTruthy (some m) then mediaEnts dl id m else []
    | none => [])
 
-def optsEntries (dl : Str) (name : Str) : Nat → List Opt → List (Str × Str)
+def optsEntries (dl : Str) (name : Str) : Nat → List Opt → List Ent
   | _, [] => []
   | i, o :: os => optEntries dl (choiceId name i) o ++ optsEntries dl name (i + 1) os
 
 /-- `get_choices`, survey.py:825-829 -/
-def choiceEntries (dl : Str) (lists : List CList) : List (Str × Str) :=
+def choiceEntries (dl : Str) (lists : List CList) : List Ent :=
   lists.flatMap fun l => if requiresItext l then optsEntries dl l.name 0 l.options else []
 
 def idsFrom (name : Str) : Nat → List Opt → List Str
@@ -238,78 +253,111 @@ def msgUsesItext (k : Str) : Txt → Bool
   | .str s => k != "jr:noAppErrorString".toList && !s.isEmpty && hasBracketedTag s
   | .none => false
 
-def msgEntries (dl : Str) (x : Str) (d : ElemD) (k : String) : List (Str × Str) :=
+def msgEntries (dl : Str) (x : Str) (d : ElemD) (k : String) : List Ent :=
   let v := msgOf d k
-  if msgUsesItext k.toList v then (langsOf dl v).map (·, path x k) else []
+  if msgUsesItext k.toList v then entsOf dl (path x k) "long".toList v else []
 
 /-- `get_translations`, survey_element.py:365-466 (question / section) -/
-def elemEntries (dl : Str) (f : Flat) : List (Str × Str) :=
+def elemEntries (dl : Str) (f : Flat) : List Ent :=
   let d := f.d
   let x := f.xpath
   msgEntries dl x d "jr:constraintMsg" ++ msgEntries dl x d "jr:requiredMsg" ++
   msgEntries dl x d "jr:noAppErrorString" ++
   -- label: a plain non-empty string is filed under the default language when an itext ref is needed
   (match d.label with
-   | .dict l => l.map fun kv => (kv.1, path x "label")
-   | .str s => if needsItextRef d && !s.isEmpty then [(dl, path x "label")] else []
+   | .dict l => entsOf dl (path x "label") "long".toList (.dict l)
+   | .str s => if needsItextRef d && !s.isEmpty then entsOf dl (path x "label") "long".toList (.str s) else []
    | .none => []) ++
   -- hint: always itext when there is a guidance hint
   (match d.hint with
-   | .dict l => l.map fun kv => (kv.1, path x "hint")
-   | .str s => if !s.isEmpty && d.guidance.truthy then [(dl, path x "hint")] else []
+   | .dict l => entsOf dl (path x "hint") "long".toList (.dict l)
+   | .str s => if !s.isEmpty && d.guidance.truthy then entsOf dl (path x "hint") "long".toList (.str s) else []
    | .none => []) ++
-  -- guidance_hint is filed under the *hint* path (form="guidance")
+  -- guidance_hint is filed under the *hint* path with form "guidance" (survey.py:854-856)
   (match d.guidance with
-   | .dict l => l.map fun kv => (kv.1, path x "hint")
-   | .str s => if !s.isEmpty then [(dl, path x "hint")] else []
+   | .dict l => entsOf dl (path x "hint") "guidance".toList (.dict l)
+   | .str s => if !s.isEmpty then entsOf dl (path x "hint") "guidance".toList (.str s) else []
    | .none => [])
 
 /-- elements visited by `_setup_translations` / `_setup_media`: `isinstance(i, Question | Section)` -/
 def visited (f : Flat) : Bool := f.d.cls != .inert
 
 /-- `_setup_media`, survey.py:905-963 -/
-def mediaEntries (dl : Str) (f : Flat) : List (Str × Str) :=
+def mediaEntries (dl : Str) (f : Flat) : List Ent :=
   match f.d.media with
-  | some m => if mediaTruthy (some m) then (mediaLangs dl m).map (·, path f.xpath "label") else []
+  | some m => if mediaTruthy (some m) then mediaEnts dl (path f.xpath "label") m else []
   | none => []
 
-/-- every (language, path) pair in the order the implementation files them -/
-def entries (dl : Str) (lists : List CList) (fs : List Flat) : List (Str × Str) :=
+/-- every leaf assignment in the order the implementation makes them -/
+def entries (dl : Str) (lists : List CList) (fs : List Flat) : List Ent :=
   choiceEntries dl lists ++ (fs.filter visited).flatMap (elemEntries dl) ++
     (fs.filter visited).flatMap (mediaEntries dl)
 
 /-! ### the table `_translations` -/
 
-/-- lang → paths; both levels in Python's insertion order -/
-abbrev Table := List (Str × List Str)
+/-- Python `d[k] = f(d.get(k))` on an insertion-ordered dict: an existing key keeps its position,
+a new key is appended -/
+def upd {β} (k : Str) (f : Option β → β) : List (Str × β) → List (Str × β)
+  | [] => [(k, f none)]
+  | (k', v) :: rest => if k' = k then (k', f (some v)) :: rest else (k', v) :: upd k f rest
 
-/-- `d[k] = …` on a dict where only the key order matters: append if absent -/
-def insPath (p : Str) (ps : List Str) : List Str := if ps.contains p then ps else ps ++ [p]
+def keys {β} (l : List (Str × β)) : List Str := l.map (·.1)
 
-def ins (T : Table) (lp : Str × Str) : Table :=
-  match T with
-  | [] => [(lp.1, [lp.2])]
-  | (l, ps) :: rest => if l = lp.1 then (l, insPath lp.2 ps) :: rest else (l, ps) :: ins rest lp
+/-- content type → "value is `-`" -/
+abbrev Forms := List (Str × Bool)
+/-- path → content types -/
+abbrev Paths := List (Str × Forms)
+/-- `_translations`: lang → path → content type; all levels in Python's insertion order -/
+abbrev Table := List (Str × Paths)
 
-def setup (es : List (Str × Str)) : Table := es.foldl ins []
+/-- one leaf assignment (`_add_to_nested_dict` for choices, `dict.update` for questions, the media
+assignments of `_setup_media`): the three keys are created when absent, the value is overwritten -/
+def ins (T : Table) (e : Ent) : Table :=
+  upd e.lang (fun o => upd e.path (fun o2 => upd e.form (fun _ => e.dash) (o2.getD [])) (o.getD [])) T
 
-/-- `paths` of `_add_empty_translations`: insertion-ordered union of the paths of all languages -/
-def allPaths (T : Table) : List Str :=
-  T.foldl (fun acc lps => lps.2.foldl (fun a p => insPath p a) acc) []
+def setup (es : List Ent) : Table := es.foldl ins []
+
+/-- `{**old, **dict.fromkeys(content)}` -/
+def unionForms (acc : List (Str × Unit)) (fs : Forms) : List (Str × Unit) :=
+  fs.foldl (fun a fb => upd fb.1 (fun _ => ()) a) acc
+
+/-- `paths` of `_add_empty_translations`: insertion-ordered union of the paths of all languages,
+each with the insertion-ordered union of its content types -/
+def allPaths (T : Table) : List (Str × List (Str × Unit)) :=
+  T.foldl (fun acc lps => lps.2.foldl (fun a pf => upd pf.1 (fun o => unionForms (o.getD []) pf.2) a) acc) []
+
+/-- pad one language: missing paths are appended, missing content types get "-" -/
+def padLang (P : List (Str × List (Str × Unit))) (ps : Paths) : Paths :=
+  P.foldl (fun acc pc => upd pc.1 (fun o => pc.2.foldl (fun fs c => upd c.1 (fun o3 => o3.getD true) fs) (o.getD [])) acc) ps
 
 /-- `_add_empty_translations`, survey.py:886-903 -/
-def pad (T : Table) : Table :=
-  T.map fun lps => (lps.1, (allPaths T).foldl (fun a p => insPath p a) lps.2)
+def pad (T : Table) : Table := T.map fun lps => (lps.1, padLang (allPaths T) lps.2)
 
+/-- one `<translation>`: language, `default="true()"` mark, and per `<text id>` the `form`
+attributes of its `<value>` children (`none` = no form attribute) -/
 structure Tr where
   lang : Str
   isDefault : Bool
-  ids : List Str
+  texts : List (Str × List (Option Str))
 deriving Repr, DecidableEq, Inhabited
+
+def Tr.ids (t : Tr) : List Str := t.texts.map (·.1)
+
+/-- `label_name.partition(":")[-1]` -/
+def labelType (p : Str) : Str := (p.dropWhile (· != ':')).drop 1
+
+/-- the `<value>` children of one `<text>`, survey.py:986-1037 -/
+def valueForms (p : Str) (fs : Forms) : List (Option Str) :=
+  fs.filterMap fun fb =>
+    if labelType p == "hint".toList then
+      (if fb.1 == "guidance".toList then some (some fb.1) else some none)
+    else if fb.1 == "long".toList then some none
+    else if fb.2 then none else some (some fb.1)
 
 /-- `itext()`, survey.py:965-1041: one translation per language, `default="true()"` iff the language
 is `default_language`, one `<text id>` per path -/
-def itext (dl : Str) (T : Table) : List Tr := T.map fun lps => ⟨lps.1, lps.1 == dl, lps.2⟩
+def itext (dl : Str) (T : Table) : List Tr :=
+  T.map fun lps => ⟨lps.1, lps.1 == dl, lps.2.map fun pf => (pf.1, valueForms pf.1 pf.2)⟩
 
 /-! ### references -/
 
@@ -350,9 +398,12 @@ def bodyRefs (lists : List CList) (f : Flat) : List Str :=
     else []
   | _ => []
 
-/-- `xml_bindings`, survey_element.py:562-573: in bind-dict order -/
+/-- `xml_bindings`, survey_element.py:562-573: in bind-dict order (only questions and sections
+carry a `bind`) -/
 def bindRefs (f : Flat) : List Str :=
-  f.d.msgs.flatMap fun kv => if msgUsesItext kv.1 kv.2 then [f.xpath ++ ':' :: kv.1] else []
+  if visited f then
+    f.d.msgs.flatMap fun kv => if msgUsesItext kv.1 kv.2 then [f.xpath ++ ':' :: kv.1] else []
+  else []
 
 def isSearchSelect (f : Flat) : Bool := f.d.cls == .select && isSearch f.d
 
@@ -448,6 +499,40 @@ def run (x : Survey) : Outcome :=
       | [] => .ok (out x)
       | es => .error es
 
+/-! ### guards of the theorems (decidable; evaluated by the check on every generated input) -/
+
+def nodupB : List Str → Bool
+  | [] => true
+  | a :: as => !as.contains a && nodupB as
+
+/-- a dict-valued slot is never the empty dict (xls2json builds dicts from non-empty cells only) -/
+def Txt.wf : Txt → Bool
+  | .dict [] => false
+  | _ => true
+
+def mediaWf : Option Media → Bool
+  | none => true
+  | some m => m.all fun kv => kv.2 != .none && kv.2.wf
+
+def msgKeys : List Str :=
+  ["jr:constraintMsg".toList, "jr:requiredMsg".toList, "jr:noAppErrorString".toList]
+
+def elemWf (d : ElemD) : Bool :=
+  d.label.wf && d.hint.wf && d.guidance.wf && mediaWf d.media && nodupB (keys d.msgs) &&
+    d.msgs.all fun kv => msgKeys.contains kv.1 && kv.2.wf
+
+def optWf (o : Opt) : Bool := o.label.wf && mediaWf o.media
+
+/-- shape invariant of the builder's output: no empty dicts, bind messages keyed uniquely -/
+def wf (x : Survey) : Bool :=
+  (flats x).all (fun f => elemWf f.d) && x.lists.all fun l => l.options.all optWf
+
+def optLabeled (o : Opt) : Bool := o.label.truthy || mediaTruthy o.media
+
+/-- complement of the open defect F6: in a list that requires itext every choice has a label or media -/
+def choicesLabeled (x : Survey) : Bool :=
+  x.lists.all fun l => !requiresItext l || l.options.all optLabeled
+
 /-! ### the property, as a decidable predicate on an observation (model's or implementation's) -/
 
 structure Obs where
@@ -455,10 +540,6 @@ structure Obs where
   refs : List Str
   defaultLanguage : Str
 deriving Repr, Inhabited
-
-def nodupB : List Str → Bool
-  | [] => true
-  | a :: as => !as.contains a && nodupB as
 
 /-- every reference names a text entry that exists in every translation (and there is an itext
 block at all when something is referenced) -/
